@@ -435,7 +435,7 @@ func run(c *lib.Ctx) {
 		}
 		return
 	}
-	n := c.N(500, 50000)
+	n := c.N(500, 200000)
 	for i := 0; i < n; i++ {
 		one(gen(c.Rng))
 	}
